@@ -218,6 +218,56 @@ def explained_by_linear_tail(R, want, cmds):
     return found
 
 
+class _G:
+    """stand-in for a HistGen in hand-made base histories"""
+    def __init__(self, cmds, names):
+        self.cmds, self.names, self.stats = cmds, names, {}
+
+
+def aimed_gc_base(rng, i, policies, stats):
+    """two hand-made base histories around the file GC (None when i selects neither):
+    i % 6 == 2: the GC's own position records roll the writer over (cursor r bytes before a file end,
+                several empty queues);
+    i % 6 == 4: one GC pass releases two or more files at once, and a later file holds calls that
+                supersede content of an earlier one (delete of a queue created earlier, truncations)"""
+    pol = rng.choice(policies)
+    if i % 6 == 2:
+        r = rng.randrange(8, 200)
+        nq = rng.choice([2, 3, 3, 5, 8])
+        cmds = ["open %s" % pol]
+        cursor = 0
+        for k in range(nq):
+            cmds.append("create =q%d" % k); cursor = mrl.advance(cursor, 11 + 2)
+        for k in range(1, nq):
+            cmds.append("append =q%d - 5:%d" % (k, k)); cursor = mrl.advance(cursor, 11 + 2 + 12 + 5)
+            cmds.append("truncate =q%d %d" % (k, rng.choice([0, 0, 3]))); cursor = mrl.advance(cursor, 11 + 2)
+        target = 2 * mrl.FILE - r - (7 + 11 + 2)
+        l = aim_stream_pos(cursor, 2, target)
+        if l is None:
+            return None
+        cmds.append("append =q0 - %d:9" % l)
+        cmds.append("truncate =q0 0")
+        if rng.random() < 0.5:
+            cmds.append("append =q1 - 3:3")
+        stats["gc_roll_bases"] = stats.get("gc_roll_bases", 0) + 1
+        return _G(cmds, ["=q%d" % k for k in range(nq)])
+    if i % 6 == 4:
+        F = mrl.FILE
+        big = lambda: rng.randrange(F // 3, F // 2)
+        cmds = ["open %s" % pol, "create =pin", "create =gone", "append =pin - %d:1" % rng.randrange(10, 2000), "create =w",
+                "append =gone - 9:2", "append =w - %d:3" % big(), "append =w - %d:4" % big(), "append =w - %d:5" % big(),
+                "delete =gone", "truncate =w 1", "append =pin - %d:6" % rng.randrange(1, 900)]
+        for k in range(rng.randrange(2, 5)):
+            cmds.append("append =w - %d:%d" % (big(), 10 + k))
+        cmds.append("truncate =w 99")
+        cmds.append("truncate =pin 99")
+        if rng.random() < 0.6:
+            cmds.append("append =w - 10:30")
+        stats["multi_release_bases"] = stats.get("multi_release_bases", 0) + 1
+        return _G(cmds, ["=pin", "=w", "=gone"])
+    return None
+
+
 class TwoPass(PropBase):
     """base histories are run once on the real crate; cases are derived from their traces"""
     base_quick = 24
@@ -232,6 +282,9 @@ class TwoPass(PropBase):
         return self.per_base_quick if self.tier == "quick" else self.per_base_thorough
 
     def base_history(self, rng, i):
+        a = aimed_gc_base(rng, i, self.policies, self.stats)
+        if a is not None:
+            return a.cmds, a
         g = HistGen(rng, policy=rng.choice(self.policies), max_payload=45000)
         g.run(rng.randrange(5, 22), weights={"create": 8, "delete": 5, "append": 48, "truncate": 28, "persist": 3, "restart": 4})
         self.merge_stats(g.stats)
@@ -274,7 +327,11 @@ def crash_points(rng, cmds, tr, nmax, from_cmd=0, byte_cuts=True):
         pts.append((len(cmds), last[1]["idx"] + 1, 0, 1))
     if len(pts) > nmax:
         w = [p[3] for p in pts]
-        chosen = set()
+        # always: before every unlink (the windows of a GC pass) and after the last event
+        kinds = {e["idx"]: e["kind"] for _, e in evs}
+        chosen = set(i for i, p in enumerate(pts) if p[2] == 0 and (kinds.get(p[1]) == "unlink" or p[0] == len(cmds)))
+        if len(chosen) > nmax // 2:
+            chosen = set(rng.sample(sorted(chosen), nmax // 2))
         tries = 0
         while len(chosen) < nmax and tries < nmax * 20:
             chosen.add(rng.choices(range(len(pts)), w)[0])
@@ -424,6 +481,9 @@ class C03(TwoPass):
                    "state must be the specification state after some call at or after the persist point (later truncations/deletions may be partly applied)")
 
     def base_history(self, rng, i):
+        a = aimed_gc_base(rng, i, self.policies, self.stats)
+        if a is not None:
+            return a.cmds, a
         g = HistGen(rng, policy=rng.choice(self.policies), max_payload=45000)
         g.run(rng.randrange(6, 24), weights={"create": 8, "delete": 5, "append": 45, "truncate": 27, "persist": 12, "restart": 3})
         self.merge_stats(g.stats)
@@ -599,7 +659,8 @@ class C06(PropBase):
     prefixes = ("out", "ev", "q", "r", "ls", "use")
     policies = ["af", "as"]
     quick_cases = 96
-    rule = ("HistGen histories with multi-file payloads, truncations that free files, deletions and restarts; the file into which each append was written "
+    rule = ("HistGen histories with multi-file payloads, truncations that free files, deletions and restarts; aimed profiles: stale file after a roll-over caused by control entries, "
+            "crash right after a roll-over under a non-flushing policy followed by a reopen; the file into which each append was written "
             "is read off the I/O trace (file of the call's first write event); non-trivial/distinct as for C01")
     oracle_text = ("after every successful truncate / delete_queue / open: the WAL files listed are a contiguous run ending at the file being written; no listed file is "
                    "older than both the first-write file of the oldest retained record of any queue and the file being written when the call began; "
@@ -625,6 +686,24 @@ class C06(PropBase):
                     cmds += ["drop", "open af", "truncate =q 0"]
                 self.stats["stale_profile"] = self.stats.get("stale_profile", 0) + 1
                 return cmds
+        if i % 8 == 3:
+            # crash right after a roll-over: the new file exists (full size, nothing of it reached the OS
+            # under a non-flushing policy), nothing retained lives in the old one; the reopen must reclaim it
+            pol = rng.choice(["no", "dif", "no"])
+            r = rng.choice([20, 40, 100, 300, 1000])
+            l = aim_file_end(0 + 7 + 12, 1, r)
+            if l is not None and l > 0:
+                cmds = ["open %s" % pol, "create =q", "append =q - %d:7" % l, "truncate =q 0"]
+                for k in range(rng.randrange(0, 3)):
+                    cmds += ["append =q - 3:%d" % (20 + k), "truncate =q %d" % (1 + k)]
+                cmds.append("append =q - %d:9" % rng.choice([r + 50, 2000, 40000]))
+                if rng.random() < 0.35:
+                    cmds.append("truncate =q 99")
+                cmds += ["crash 100000 0", "open %s" % rng.choice(self.policies)]
+                if rng.random() < 0.5:
+                    cmds += ["append =q - 5:30", "truncate =q 200", "drop", "open af"]
+                self.stats["crash_after_rollover"] = self.stats.get("crash_after_rollover", 0) + 1
+                return cmds
         if i % 8 == 0:
             # the known exact-fit corner: an append that begins exactly at the end of a file
             g2 = ["open af", "create =q", "append =q - 131001:5", "append =q - 32000:6", "truncate =q 0", "drop", "open af"]
@@ -638,6 +717,7 @@ class C06(PropBase):
         exact_fit = set()    # records whose append began exactly at a file end
         cur = 0
         cursor_off = None
+        crashed = False
         ref = RefMap()
         for i, cmd in enumerate(cmds):
             if i >= len(tr):
@@ -662,8 +742,8 @@ class C06(PropBase):
             if writes:
                 cur = file_no(writes[-1]["name"])
                 cursor_off = writes[-1]["off"] + writes[-1]["len"]
-            if toks[0] == "open":
-                first_file_after = dict(first_file)
+            if toks[0] in ("crash", "powerloss"):
+                crashed = True
             check = (toks[0] in ("truncate", "delete") and " ok" in out) or (toks[0] == "open" and out == "out open ok")
             if not check:
                 continue
@@ -681,6 +761,22 @@ class C06(PropBase):
             if listed != list(range(listed[0], listed[-1] + 1)):
                 vs.append({"msg": "cmd %d `%s`: WAL files are not a contiguous run: %r" % (i, cmd, listed), "shape": "files-gap"})
                 return vs
+            if toks[0] == "open":
+                cur = listed[-1]          # open always resumes in the last file of the directory
+                cursor_off = None
+                if crashed:
+                    # what survived the crash is what the crate recovered (judged by C02/C03, not here): the
+                    # retained records are the recovered positions
+                    crashed = False
+                    o = obs_of(c)
+                    for tok in list(ref.q):
+                        key = show_name(name_bytes(tok))
+                        if key not in o:
+                            del ref.q[tok]
+                        else:
+                            have = set(r[0] for r in o[key]["recs"])
+                            ref.q[tok].recs = [r for r in ref.q[tok].recs if r[0] in have]
+                            ref.q[tok].next = o[key]["next"]
             retained = []
             for tok, q in ref.q.items():
                 for pos, _ in q.recs:
@@ -876,6 +972,7 @@ def inphase_batch_history(rng):
     g = HistGen(rng, policy="af", nqueues=1)
     g.names = ["=q"]
     g.cmds.append("create =q"); g.ref.create("=q"); g.note_write("pos", "=q")
+    inphase_align_first(rng, g, d)
     pls = ["%d:%d" % (d - 12, 500 + k) for k in range(n)]
     g.ref.append("=q", None, pls)
     g.cmds.append("append =q - " + " ".join(pls))
@@ -883,6 +980,21 @@ def inphase_batch_history(rng):
     g.batch = (len(g.cmds) - 1, "=q", 0, pls)
     g.inphase = True
     return g
+
+
+def inphase_align_first(rng, g, d):
+    """(half of the time) a filler append to another queue so that the FIRST frame of the batch, too, ends
+    exactly between two records: then every frame boundary of the batch is a record boundary, and any
+    prefix of its frames parses as a shorter batch.  Cursor: create q = 19 bytes, create f = 19, filler
+    entry = 7 + 12 + 12 + L; the batch's first frame holds B - cursor - 7 bytes, 12 of them entry header."""
+    if rng.random() < 0.5:
+        return
+    L = (mrl.B - 88) % d
+    g.names.append("=f")
+    g.cmds.append("create =f"); g.ref.create("=f"); g.note_write("pos", "=f")
+    tok = "%d:499" % L
+    g.ref.append("=f", None, [tok])
+    g.cmds.append("append =f - %s" % tok); g.note_write("append", "=f", [L])
 
 
 class DamageBase(TwoPass):
@@ -1241,9 +1353,10 @@ class C10(DamageBase):
                     off = rng.randrange(0, mrl.FILE - 40000)
                     ops.append("damage %d %d x%s" % (f, off, bytes(rng.choice([7, 100, 33000])).hex()))
                 else:
-                    nm = rng.choice(["wal-0000000000000000000", "wal-000000000000000000001", "WAL-00000000000000000000", "notes"])
-                    if not any(o.startswith("seedfile %s " % nm.encode().hex()) for o in ops):
-                        ops.append("seedfile %s %s" % (nm.encode().hex(), rng.choice(["f 0102", "d"])))
+                    import props
+                    nm = rng.choice([b"wal-0000000000000000000", b"wal-000000000000000000001", b"WAL-00000000000000000000", b"notes"] + props.ODD_NAMES)
+                    if not any(o.startswith("seedfile %s " % nm.hex()) for o in ops):
+                        ops.append("seedfile %s %s" % (nm.hex(), rng.choice(["f 0102", "d"])))
             out.append(("%s_x%d" % (bid, k), cmds + ops + ["open af"]))
             self.stats["images"] = self.stats.get("images", 0) + 1
         # length-field window: a frame header whose length makes header+payload end just before / at / after
@@ -1429,6 +1542,7 @@ class C12(TwoPass):
             n = (3 * mrl.B) // d + rng.randrange(5, 40)
             g = HistGen(rng, policy="af", nqueues=1)
             g.cmds.append("create =q"); g.ref.create("=q"); g.note_write("pos", "=q")
+            inphase_align_first(rng, g, d)
             pls = ["%d:%d" % (d - 12, 500 + k) for k in range(n)]
             res = g.ref.append("=q", None, pls)
             g.cmds.append("append =q - " + " ".join(pls))
